@@ -731,6 +731,9 @@ func ledgerHistory(c *Ctx, id int) {
 		b, err := n.Submit(tpl)
 		if err != nil {
 			c.Hit("rejected-" + kind)
+			if c.Args["debug"] != "" {
+				c.Hit("dbg rejected-" + kind + ": " + firstLine(err.Error()))
+			}
 			return nil
 		}
 		pooled = append(pooled, b)
@@ -777,6 +780,201 @@ func ledgerHistory(c *Ctx, id int) {
 		}
 	}
 
+	// fillTo: an amount that makes the balance of `to` (pool state) land on 2^k-1, 2^k or 2^k+1 for a k of hugeBoundaryBits, if
+	// the sender can afford it (C01: credits and debits of user-issued tokens with more than 2^64 base units)
+	fillTo := func(from, to types.Address, t types.ZenonTokenStandard) *big.Int {
+		have, _ := n.Chain().GetFrontierAccountStore(from).GetBalance(t)
+		cur, _ := n.Chain().GetFrontierAccountStore(to).GetBalance(t)
+		if have == nil || have.Sign() <= 0 {
+			return nil
+		}
+		if cur == nil {
+			cur = new(big.Int)
+		}
+		var cands []*big.Int
+		for _, k := range hugeBoundaryBits {
+			for d := int64(-1); d <= 1; d++ {
+				a := new(big.Int).Sub(new(big.Int).Add(bigPow2(k), big.NewInt(d)), cur)
+				if a.Sign() > 0 && a.Cmp(have) <= 0 {
+					cands = append(cands, a)
+				}
+			}
+		}
+		if len(cands) == 0 {
+			return nil
+		}
+		c.Hit("transfer-fill-to-boundary")
+		return cands[c.R.Intn(len(cands))]
+	}
+	// hugeLadder (once per history in one history of three): a user issues a token whose supply exceeds 2^64 base units (family:
+	// 2^255-1 = the largest legal supply, 2^128+.., 2^64+.., 2^64, 2^64+1, 2^65-1; mintable up to 2^255-1 every other time) and
+	// pays it out so that the running balance of a fresh receiver R_k lands on 2^k-1, 2^k and 2^k+1 for every k of
+	// hugeBoundaryBits the supply affords: a random part first, then the rest up to 2^k-1, then 1, then 1 - every credit
+	// in its own receive block; a mint for the owner tops the recorded supply up across the next power of two where the
+	// cap allows; then the receivers pay 1, 1 and a random part back (debits cross the same boundaries downwards), every
+	// other one by burning. Every accepted block goes through recordAccepted (balance delta of its own account = the
+	// recorded amount) and the conservation monitors of every momentum / pool state; the lines are replayed by the model.
+	hugeLadder := func() bool {
+		var owner types.Address
+		found := false
+		for i := range users {
+			u := users[(id/3+i)%len(users)]
+			if bal, _ := n.Chain().GetFrontierAccountStore(u).GetBalance(types.ZnnTokenStandard); bal != nil && bal.Cmp(constants.TokenIssueAmount) >= 0 {
+				owner, found = u, true
+				break
+			}
+		}
+		if !found {
+			c.Hit("huge-ladder-no-owner")
+			return true
+		}
+		p2 := bigPow2
+		add := func(xs ...*big.Int) *big.Int {
+			z := new(big.Int)
+			for _, x := range xs {
+				z.Add(z, x)
+			}
+			return z
+		}
+		rnd := func(bits uint) *big.Int { return new(big.Int).Rand(c.R, p2(bits)) }
+		max255 := new(big.Int).Sub(p2(255), big.NewInt(1))
+		var supply *big.Int
+		variant := (id / 3) % 6
+		switch variant {
+		case 0:
+			supply = max255
+		case 1:
+			supply = add(p2(128), p2(127), p2(65), rnd(32))
+		case 2:
+			supply = add(p2(64), p2(63), p2(33), rnd(20))
+		case 3:
+			supply = p2(64)
+		case 4:
+			supply = add(p2(64), big.NewInt(1))
+		default:
+			supply = new(big.Int).Sub(p2(65), big.NewInt(1))
+		}
+		mintable := (id/3)%2 == 1 && supply.Cmp(max255) < 0
+		maxSupply := new(big.Int).Set(supply)
+		if mintable {
+			maxSupply = max255
+		}
+		c.Hit(fmt.Sprintf("huge-ladder-variant-%d", variant))
+		data, err := definition.ABIToken.PackMethod(definition.IssueMethodName, fmt.Sprintf("huge%d", id), fmt.Sprintf("HG%d", id%1000), "", supply, maxSupply, uint8(18), mintable, true, false)
+		if err != nil {
+			return true
+		}
+		is := submit("huge-issue", &nom.AccountBlock{BlockType: nom.BlockTypeUserSend, Address: owner, ToAddress: types.TokenContract, TokenStandard: types.ZnnTokenStandard,
+			Amount: constants.TokenIssueAmount, Data: data})
+		if is == nil {
+			c.Hit("huge-ladder-issue-rejected")
+			return true
+		}
+		zts := types.NewZenonTokenStandard(is.Hash.Bytes())
+		round := func() bool {
+			pooled = pooled[:0]
+			return momentum()
+		}
+		// receiveAll: every confirmed, unreceived send of the token addressed to `who`, in confirmation order
+		receiveAll := func(who types.Address) {
+			for _, hs := range append([]types.Hash{}, r.sendList...) {
+				rec := r.sends[hs]
+				if rec != nil && rec.confirmed != 0 && len(rec.received) == 0 && rec.to == who && rec.tok == zts {
+					submit("huge-receive", &nom.AccountBlock{BlockType: nom.BlockTypeUserReceive, Address: who, FromBlockHash: rec.hash})
+				}
+			}
+		}
+		if !round() || !round() {
+			return false
+		}
+		receiveAll(owner)
+		if !round() {
+			return false
+		}
+		if bal, _ := n.Chain().GetFrontierAccountStore(owner).GetBalance(zts); bal == nil || bal.Cmp(supply) != 0 {
+			c.Hit("huge-ladder-supply-not-received")
+			return true
+		}
+		// the boundaries the supply affords (largest first), one fresh receiver each
+		var ks []uint
+		var rcv []types.Address
+		left := new(big.Int).Set(supply)
+		one := big.NewInt(1)
+		cand := []types.Address{} // accounts that can pay for their own receive blocks (plasma fused for them in the mock genesis)
+		for _, a := range append(append([]types.Address{}, users...), g.Pillar4.Address, g.Pillar5.Address, g.Pillar6.Address, g.Pillar7.Address, g.Pillar8.Address) {
+			if a != owner {
+				cand = append(cand, a)
+			}
+		}
+		for i := len(hugeBoundaryBits) - 1; i >= 0 && len(rcv) < len(cand); i-- {
+			k := hugeBoundaryBits[i]
+			need := add(p2(k), one)
+			if need.Cmp(left) <= 0 {
+				left.Sub(left, need)
+				ks = append(ks, k)
+				rcv = append(rcv, cand[len(rcv)])
+			}
+		}
+		part := make([]*big.Int, len(ks))
+		for j := 0; j < 4; j++ {
+			for i, k := range ks {
+				var a *big.Int
+				switch j {
+				case 0:
+					part[i] = add(one, new(big.Int).Rand(c.R, new(big.Int).Sub(p2(k), big.NewInt(2)))) // 1 .. 2^k-2
+					a = part[i]
+				case 1:
+					a = new(big.Int).Sub(new(big.Int).Sub(p2(k), one), part[i]) // lands on 2^k-1
+				default:
+					a = one // 2^k, then 2^k+1
+				}
+				submit("huge-transfer", &nom.AccountBlock{BlockType: nom.BlockTypeUserSend, Address: owner, ToAddress: rcv[i], TokenStandard: zts, Amount: new(big.Int).Set(a)})
+			}
+			if j == 2 && mintable {
+				// the recorded supply crosses the next power of two by a mint (credited to the owner through the token contract's send)
+				info, _ := n.Chain().GetFrontierMomentumStore().GetTokenInfoByTs(zts)
+				if info != nil {
+					up := new(big.Int).Sub(p2(uint(info.TotalSupply.BitLen())), info.TotalSupply)
+					if md, err := definition.ABIToken.PackMethod(definition.MintMethodName, zts, add(up, big.NewInt(int64(c.R.Intn(3)-1))), owner); err == nil {
+						submit("huge-mint", &nom.AccountBlock{BlockType: nom.BlockTypeUserSend, Address: owner, ToAddress: types.TokenContract, Data: md})
+					}
+				}
+			}
+			if !round() {
+				return false
+			}
+			for _, w := range rcv {
+				receiveAll(w)
+			}
+			receiveAll(owner)
+		}
+		// back down across the same boundaries: 1, 1, a random part; every other receiver burns instead of paying back
+		for j := 0; j < 3; j++ {
+			for i, k := range ks {
+				a := one
+				if j == 2 {
+					a = add(one, new(big.Int).Rand(c.R, new(big.Int).Sub(p2(k), big.NewInt(2))))
+				}
+				if i%2 == 1 {
+					submit("huge-burn", &nom.AccountBlock{BlockType: nom.BlockTypeUserSend, Address: rcv[i], ToAddress: types.TokenContract, TokenStandard: zts, Amount: new(big.Int).Set(a),
+						Data: definition.ABIToken.PackMethodPanic(definition.BurnMethodName)})
+				} else {
+					submit("huge-transfer-back", &nom.AccountBlock{BlockType: nom.BlockTypeUserSend, Address: rcv[i], ToAddress: owner, TokenStandard: zts, Amount: new(big.Int).Set(a)})
+				}
+			}
+			if !round() {
+				return false
+			}
+			receiveAll(owner)
+		}
+		if !round() {
+			return false
+		}
+		c.Hit("huge-ladder-done")
+		c.HitN("huge-ladder-boundaries", len(ks))
+		return !r.failed
+	}
+
 	if tight {
 		// somebody to be rewarded in QSR as well: a stake, and a sentinel (QSR deposit, then registration)
 		submit("stake", &nom.AccountBlock{BlockType: nom.BlockTypeUserSend, Address: g.User1.Address, ToAddress: types.StakeContract, TokenStandard: types.ZnnTokenStandard,
@@ -802,6 +1000,12 @@ func ledgerHistory(c *Ctx, id int) {
 			r.hostileBurst(users, everyone, pickTok(), 7*id, 8)
 			continue
 		}
+		if s == steps/2 && (c.Args["huge"] == "1" || (c.Args["huge"] == "" && id%3 == 0)) {
+			if !hugeLadder() {
+				return
+			}
+			continue
+		}
 		switch {
 		case x < 22: // plain transfer
 			from := users[c.R.Intn(len(users))]
@@ -813,6 +1017,11 @@ func ledgerHistory(c *Ctx, id int) {
 				c.R.Read(data)
 			}
 			am := pickAmount(from, t)
+			if t != types.ZnnTokenStandard && t != types.QsrTokenStandard && c.R.Intn(3) == 0 {
+				if f := fillTo(from, to, t); f != nil {
+					am = f
+				}
+			}
 			switch c.R.Intn(8) {
 			case 0: // data-only message: no token at all
 				t, am = types.ZeroTokenStandard, big.NewInt(0)
@@ -919,7 +1128,20 @@ func ledgerHistory(c *Ctx, id int) {
 			case 0:
 				total := c.genBig()
 				max := c.genBig()
-				if c.R.Intn(3) != 0 {
+				switch c.R.Intn(6) {
+				case 0, 1:
+				case 2: // more than 2^64 base units (legal up to 2^255-1): next to a power of two of hugeBoundaryBits, or 2^255-1
+					k := hugeBoundaryBits[2+c.R.Intn(len(hugeBoundaryBits)-2)]
+					total = new(big.Int).Add(bigPow2(k), big.NewInt(int64(c.R.Intn(5)-2)))
+					if c.R.Intn(4) == 0 {
+						total = new(big.Int).Sub(bigPow2(255), big.NewInt(1))
+					}
+					max = new(big.Int).Set(total)
+					if c.R.Intn(2) == 0 {
+						max = new(big.Int).Sub(bigPow2(255), big.NewInt(1))
+					}
+					c.Hit("token-issue-huge")
+				default:
 					total = big.NewInt(int64(c.R.Intn(1000)))
 					max = new(big.Int).Add(total, big.NewInt(int64(c.R.Intn(1000))))
 				}
@@ -1204,6 +1426,9 @@ func ledgerHistory(c *Ctx, id int) {
 	}
 	c.Hit("history-complete")
 }
+
+// hugeBoundaryBits: the powers of two the running balances of huge-supply tokens are made to cross (machine word sizes)
+var hugeBoundaryBits = []uint{31, 32, 63, 64, 127, 128, 254}
 
 func burnLimit(bal *big.Int) int {
 	if bal.IsInt64() && bal.Int64() < 30 {
